@@ -63,6 +63,23 @@ def handleFmap (s : FState) (ws : List String) : Option (FState × String) :=
       let k ← mapKind? kind
       let (f, r) := s.forest.entryOrInsert k (← node a) (← entryValue? k key val)
       fin f (showRes r)
+  | ["entry_or_insert_with", kind, a, key, val] => do
+      -- answer: did the closure run, and the value behind the returned `&mut V`
+      let k ← mapKind? kind
+      let h ← node a
+      let d ← entryValue? k key val
+      let (f, r, called) := s.forest.entryOrInsertWith k h (Forest.entryKey d) (fun _ => d)
+      match r with
+      | .ok =>
+        let seen := match f.mapGet k h (Forest.entryKey d) with | some v => showPayload v | none => "?"
+        fin f s!"ok {if called then 1 else 0} {seen}"
+      | r => fin f (showRes r)
+  | ["occupied_into_mut", kind, a, key, val] => do
+      let k ← mapKind? kind
+      let (f, r, found) := s.forest.occupiedIntoMutSet k (← node a) (← key.toNat?) (← entryValue? k key val)
+      match r with
+      | .ok => fin f (if found then "ok 1" else "ok 0")
+      | r => fin f (showRes r)
   | ["entry_or_default", a, key] => do
       let (f, r) := s.forest.entryOrDefault (← node a) (← key.toNat?)
       fin f (showRes r)
